@@ -15,6 +15,13 @@ CLAIMED = {
             "Trusted: Coq kernel + vm_compute; hand-written model tied by differential correspondence (exact dyadic inputs); "
             "binary64 rounding modelled by exact rationals; rectangle_grid tiling theorem not yet proved (covered by correspondence + oracle).",
             "DESIGN.md section 4, C18"),
+    "C16": ("Coq proof (Z model of Literal/Term/Expr/Ineq, build_eval by induction on expression trees) + vm_compute correspondence",
+            "Machine-checked: for every expression tree over literals of both polarities, terms, integers and nested expressions with +, -, integer *, "
+            "the normalised expression evaluates to the direct integer value under every assignment and is in normal form (positive coefficients, "
+            "no repeated variable); a built inequality holds iff the direct comparison holds, for all operators. The model is tied to "
+            "tools/rect/pseudobool.py on every run by structural comparison of (constant, ordered terms) and (lhs, rhs, op) on thousands of random trees.",
+            "Trusted: Coq kernel + vm_compute; hand-written model tied by differential correspondence; Python int = Z; OrderedDict = list.",
+            "DESIGN.md section 4, C16"),
 }
 PENDING_REASON = "not built yet in this revision of /verif (design in DESIGN.md section 4); no check is registered, so nothing is claimed"
 
